@@ -7,6 +7,7 @@ import SideVerif.Drive.C18
 import SideVerif.Drive.C13
 import SideVerif.Drive.C02
 import SideVerif.Drive.C03
+import SideVerif.Drive.C06
 open Lean
 namespace SideVerif.Drive
 
@@ -23,6 +24,7 @@ def dispatch (op : String) (j : Json) : Except String Json :=
   | "c13" => c13 j
   | "c02" => c02 j
   | "c03" => c03 j
+  | "c06" => c06 j
   | "ping" => pure (Json.str "pong")
   | _ => throw s!"unknown op {op}"
 
